@@ -110,6 +110,47 @@ def check(rep, tier):
                 nzs = [(int(j), int(Mr[i, j])) for j in np.nonzero(Mr[i])[0]]
                 rtxt.append("(%s, %s, %s)" % (zlit(i), coq_list("(%s,%s)" % (zlit(j), zlit(v)) for j, v in nzs), zlit(int(Er[i]))))
             cases.append((key, "(%s, %s, %s, %s, %s)" % (ARR[arr], zlit(nx), zlit(ny), zlit(nz), coq_list(rtxt))))
+    # ---- re-shaped objects: the matrices must follow N_vials through any history of the object ----
+    sf = impl.snowflake_mod()
+    nseq = 6 if tier == "quick" else 40
+    for arr in ("square", "hexagonal"):
+        for s_i in range(nseq):
+            hist = []
+            try:
+                with impl.quiet():
+                    S = sf.Snowflake(k=dict(K), N_vials=(rng.randint(1, 4), rng.randint(1, 4), rng.randint(1, 3)),
+                                     configPath=impl.arrangement_cfg(arr))
+                    for step in range(8):
+                        op = rng.choice(["shape", "shape", "seed", "H_shelf", "H_int", "H_ext"])
+                        if op == "shape":
+                            # same or different vial count, different geometry
+                            shp = (rng.randint(1, 4), rng.randint(1, 4), rng.randint(1, 3))
+                            S.N_vials = shp
+                            hist.append(["N_vials", shp])
+                        elif op == "seed":
+                            S.seed = rng.randint(0, 99); hist.append(["seed"])
+                        elif op == "H_shelf":
+                            _ = S.H_shelf; hist.append(["H_shelf"])
+                        else:
+                            nx, ny, nz = S.N_vials
+                            Aarea = S.const["A"]
+                            H = S.H_int.toarray() / (K["int"] * Aarea)
+                            E = np.asarray(S.H_ext, dtype=float) / (K["ext"] * Aarea)
+                            hist.append([op])
+                            G = geometric(arr, nx, ny, nz)
+                            maxI = (4 if arr == "square" else 6) + (2 if nz > 1 else 0)
+                            rep.case("hist %s %s" % (arr, hist), nontrivial=len(hist) > 1)
+                            rep.count("history-steps")
+                            if H.shape != G.shape or (np.rint(H) != G - np.diag(G.sum(axis=1))).any() or (np.rint(E) != maxI - G.sum(axis=1)).any():
+                                rep.violation("stale-matrices-after-reshape",
+                                              "%s object after history %s: H_int/H_ext are not those of its current shape %s" % (arr, hist, (nx, ny, nz)),
+                                              dict(arrangement=arr, history=hist, shape=(nx, ny, nz)))
+                                raise StopIteration
+            except StopIteration:
+                pass
+            except Exception as e:
+                rep.violation("reshape-crash %s" % type(e).__name__, "%s object, history %s raises %r" % (arr, hist, e),
+                              dict(arrangement=arr, history=hist, error=repr(e)))
     # correspondence with the Coq model
     CH = 60
     chunks = [cases[i:i + CH] for i in range(0, len(cases), CH)]
